@@ -1,14 +1,13 @@
 CONSTANTS
-  NinSet <- SmallNin
-  NoutSet <- SmallNout
-  UnusedSets <- SmallUnused
-  ReqFilter <- NoFilter
+  NinSet <- WideNin
+  NoutSet <- WideNout
+  UnusedSets <- WideUnused
+  ReqFilter <- WideFilter
   NPass = 2
 SPECIFICATION Spec
 INVARIANT PositionalStable
 INVARIANT OutputsPerLeaf
 INVARIANT NamesApplied
 INVARIANT RejectIffBad
-INVARIANT ReturnedIsSound
-INVARIANT AbortPolicy
+INVARIANT EmitEnd
 CHECK_DEADLOCK FALSE
